@@ -11,7 +11,7 @@ import muxcheck
 import muxgen
 
 LEVEL = "proof"
-CONE = ["Props/C17.v", "Proofs/MuxTotal.v", "Model/Writer.v"]
+CONE = ["Props/C17.v", "Props/C17Bytes.v", "Proofs/MuxTotal.v", "Proofs/EncTotal.v", "Model/Writer.v", "Model/WriterMoov.v"]
 U32 = 1 << 32
 
 
@@ -136,4 +136,4 @@ def check(rep):
     muxcheck.run_property(rep, "C17", CONE, hs, [oracle_c17, then_valid],
                           "degenerate argument pools on every public field (zero/maximal timescales, SPS/PPS lengths 0..70000, non-ISO language strings, "
                           "maximal durations and rendering offsets, large samples, unknown/zero/maximal track ids, no tracks, late add_track) + random histories "
-                          "with perturbed configurations; every call under catch_unwind in the debug (overflow-checked) and release (wrapping) profiles")
+                          "with perturbed configurations; every call under catch_unwind in the debug (overflow-checked) and release (wrapping) profiles", modules=["C17", "C17Bytes"])
